@@ -792,7 +792,7 @@ fn main() {
         // (the thread count is a u8: line counts around 2^8 in quick too, there with fewer thread counts)
         let lens = tu_verif::enumerate::threshold_lengths(8);
         let quick = run.pick(true, false);
-        run.bounds.insert("many_lines_phase".into(), json!(format!("line counts {lens:?} x (one file, two files cut in the middle) x max_size {{10, none}} x max_sequences {{none, n - 1, n}} x 3 modes x num_threads {{0, 1, 2, 3, 16, 17, 255}}{}", if quick { " (quick: the thread counts above 3 with the word mode only; more than 65 lines: one file, {0, 2, 255}, words + chars(3))" } else { "" })));
+        run.bounds.insert("many_lines_phase".into(), json!(format!("line counts {lens:?} x (one file, two files cut in the middle) x max_size {{10, none}} x max_sequences {{none, n - 1, n}} x 3 modes x num_threads {{0, 1, 2, 3, 16, 17, 255}} (the character modes: {{0, 2, 17}}, without max_sequences = n){}", if quick { " (quick: the thread counts above 3 with the word mode only; more than 65 lines: one file, {0, 2, 255}, words + chars(3))" } else { "" })));
         let base = units + sus.len() + specs.len().div_ceil(64);
         run.bounds.insert("many_lines_first_unit".into(), json!(base));
         for (k, n) in lens.iter().enumerate() {
@@ -813,10 +813,16 @@ fn main() {
                             // (also thread counts around a power of two and the largest the parameter type holds)
                             // (quick: the large thread counts with the word mode only -- the mode does not
                             // change how lines are handed to the threads)
-                            let threads = match (trimmed, quick && use_characters) {
+                            // (thorough: the character modes with three thread counts, and max_sequences
+                            // equal to the line count with the word mode only)
+                            if !quick && use_characters && qi == 2 {
+                                continue;
+                            }
+                            let threads = match (trimmed, use_characters) {
                                 (true, false) => vec![0, 2, 255],
                                 (true, true) => vec![0, 2],
-                                (false, true) => vec![0, 1, 2, 3],
+                                (false, true) if quick => vec![0, 1, 2, 3],
+                                (false, true) => vec![0, 2, 17],
                                 (false, false) => vec![0, 1, 2, 3, 16, 17, 255],
                             };
                             check_case(&mut run, &mut ctx, &Case { files: files.clone(), max_size, max_sequences, use_characters, char_grams, threads, term: vec![] });
